@@ -227,4 +227,594 @@ def R4_fee_manager_ports(run):
               detail="larger >= (smaller * tick_index_to_sqrt_price(threshold)) >> 64")
 
 
-RULES = [R1_constants, R4_fee_manager_ports]
+
+SW = "quote::swap::"
+TK = "math::token::"
+
+
+def _events(K, fn, ctx, names, depth=6):
+    tg = lambda p: p.rsplit("::", 1)[-1] in names
+    return {(p.rsplit("::", 1)[-1], v) for p, v in preach.call_events(K, fn, ctx, tg, depth=depth)}
+
+
+def _rets(fn, pv, ok_only=True):
+    out = []
+    for bi, bb in enumerate(fn.blocks):
+        if bb["t"]["k"] == "ret" and (pv.flow is None or pv.flow.state_in[bi] is not None):
+            for l in leaves(pv.local(0, bi, len(bb["s"]))):
+                l = strip(l)
+                if ok_only and l[0] == "call" and "from_residual" in l[1]:
+                    continue
+                out.append(l)
+    return out
+
+
+def _ok_payload(t):
+    t = strip(t)
+    if t[0] == "agg" and t[2] == "Ok":
+        return strip(dict(t[3])["0"])
+    return None
+
+
+def R2_step(run):
+    run.title("R2", "SDK compute_swap_step: per (specified_input, a_to_b) the curve primitives are delta_a(round_up = a_to_b) and delta_b(round_up = !a_to_b) (input up, output down); "
+                    "next price uses from_a iff specified_input == a_to_b with the flag specified_input; exact-in budget = apply_fee (floor), fee of a full step = reverse_fee (ceil) - in, "
+                    "fee of a partial exact-in step = remaining - in; amount_in/out = fixed/unfixed by mode; exact-out output capped by the request")
+    K = run.sdk
+    fn = K.need_fn(SW + "compute_swap_step")
+    run.touch(fn)
+    for ctx in preach.contexts(["specified_input", "a_to_b"]):
+        si, ab = ctx["specified_input"], ctx["a_to_b"]
+        tagc = "[exact_in=%d,a_to_b=%d]" % (si, ab)
+        ev = _events(K, fn, ctx, ("try_get_amount_delta_a", "try_get_amount_delta_b"))
+        want = {("try_get_amount_delta_a", ab), ("try_get_amount_delta_b", not ab)}
+        got = {(p, v[3]) for p, v in ev}
+        run.check("R2", "polarity" + tagc, got == want, "SDK swap step rounds the wrong way in context exact_in=%s a_to_b=%s: token A must be rounded %s and token B %s" %
+                  (si, ab, "up" if ab else "down", "down" if ab else "up"), loc=fn.loc(), expected=str(sorted(want)), found=str(sorted(got)), detail="delta_a round_up=%s, delta_b round_up=%s" % (ab, not ab))
+        ev = _events(K, fn, ctx, ("try_get_next_sqrt_price_from_a", "try_get_next_sqrt_price_from_b"))
+        want = {("try_get_next_sqrt_price_from_a" if si == ab else "try_get_next_sqrt_price_from_b", si)}
+        got = {(p, v[3]) for p, v in ev}
+        run.check("R2", "next-price" + tagc, got == want, "SDK next-price dispatch in context exact_in=%s a_to_b=%s is %s, expected %s" % (si, ab, sorted(got), sorted(want)), loc=fn.loc(),
+                  detail="%s(specified_input=%s)" % list(want)[0])
+        ev = _events(K, fn, ctx, ("try_mul_div",))
+        want = {False, True} if si else {True}
+        got = {v[3] for p, v in ev}
+        run.check("R2", "fee-rounding" + tagc, got == want, "SDK fee conversions in context exact_in=%s use try_mul_div round_up flags %s, expected %s (apply = floor, reverse = ceil)" % (si, sorted(got), sorted(want)),
+                  loc=fn.loc(), detail="apply_fee floor%s; reverse_fee ceil" % ("" if si else " (unused)"))
+        pv = prov_of(fn, ctx)
+        q = [_ok_payload(r) for r in _rets(fn, pv)]
+        q = [x for x in q if x is not None and x[0] == "agg"]
+        ok = len(q) == 1
+        if ok:
+            f = {n: t for n, t in q[0][3]}
+            fixed = lambda t: all(is_call(x, "try_get_amount_fixed_delta") for x in leaves(t))
+            unfixed = lambda t: all(is_call(x, "try_get_amount_unfixed_delta") for x in leaves(t))
+            if si:
+                ok = fixed(f["amount_in"]) and unfixed(f["amount_out"])
+            else:
+                lo = [strip(x) for x in leaves(f["amount_out"])]
+                ok = unfixed(f["amount_in"]) and any(is_param(x, "amount_remaining") for x in lo) and all(is_param(x, "amount_remaining") or is_call(x, "try_get_amount_fixed_delta") for x in lo)
+            run.check("R2", "amounts" + tagc, ok, "SDK step in context exact_in=%s: amount_in = %s, amount_out = %s; expected %s" %
+                      (si, sh(f["amount_in"], 80), sh(f["amount_out"], 80), "in = fixed delta, out = unfixed delta" if si else "in = unfixed delta, out = min(fixed delta, remaining)"), loc=fn.loc(),
+                      detail="in=%s out=%s" % (("fixed", "unfixed") if si else ("unfixed", "fixed capped at remaining")))
+            fees = [strip(x) for x in leaves(f["fee_amount"])]
+            shapes = set()
+            for x in fees:
+                if x[0] == "bin" and x[1].startswith("Sub"):
+                    l, r = strip(x[2]), x[3]
+                    if is_param(l, "amount_remaining"):
+                        shapes.add("remainder")
+                    elif is_call(l, "try_reverse_apply_swap_fee") or (l[0] == "q" and is_call(l[1], "try_reverse_apply_swap_fee")):
+                        shapes.add("reverse")
+                    else:
+                        shapes.add("?" + sh(l, 40))
+                else:
+                    shapes.add("?" + sh(x, 40))
+            want = {"remainder", "reverse"} if si else {"reverse"}
+            run.check("R2", "fee" + tagc, shapes == want, "SDK step fee in context exact_in=%s is %s, expected %s" % (si, sorted(shapes), sorted(want)), loc=fn.loc(), detail="fee in {%s}" % ", ".join(sorted(want)))
+            if si:
+                # which one: the remainder only when the step stops short of its target
+                mx = [at for at in A.atoms(fn, ctx) if at.cond() and at.cond()[0] in ("Eq", "Ne") and is_param(at.cond()[2], "target_sqrt_price") and
+                      mentions(at.cond()[1], lambda s: s[0] == "call" and s[1].endswith("try_get_next_sqrt_price"))]
+                res = {}
+                for is_max in (True, False):
+                    pva = prov_assuming(fn, [(at, (at.cond()[0] == "Eq") == is_max) for at in mx], ctx)
+                    qq = [_ok_payload(r) for r in _rets(fn, pva)]
+                    qq = [x for x in qq if x is not None and x[0] == "agg"]
+                    kinds = set()
+                    for x in qq:
+                        for y in leaves(dict(x[3])["fee_amount"]):
+                            y = strip(y)
+                            kinds.add("remainder" if (y[0] == "bin" and is_param(y[2], "amount_remaining")) else "reverse")
+                    res[is_max] = kinds
+                run.check("R2", "fee-by-fill" + tagc, bool(mx) and res == {True: {"reverse"}, False: {"remainder"}},
+                          "SDK exact-in step fee: reaching the target gives %s, stopping short gives %s; expected reverse_fee(in) - in when the target is reached and remaining - in otherwise" %
+                          (sorted(res.get(True, [])), sorted(res.get(False, []))), loc=fn.loc(), detail="target reached => ceil fee on in; partial => remaining - in")
+            nx = [strip(x) for x in leaves(f["next_sqrt_price"])]
+            ok = any(is_param(x, "target_sqrt_price") for x in nx) and any(is_call(x, "try_get_next_sqrt_price") for x in nx) and len(nx) == 2
+            if ok:
+                c = [x for x in nx if is_call(x, "try_get_next_sqrt_price")][0]
+                c = c[1] if c[0] == "q" else c
+                budget = strip(c[2][2])
+                ok = (is_call(budget, "try_apply_swap_fee") and is_param(strip(budget[1] if budget[0] == "q" else budget)[2][0], "amount_remaining")) if si else is_param(budget, "amount_remaining")
+                ok = ok and is_param(c[2][0], "current_sqrt_price") and is_param(c[2][1], "current_liquidity") and is_param(c[2][3], "a_to_b") and is_param(c[2][4], "specified_input")
+            run.check("R2", "next-price-inputs" + tagc, ok, "SDK step next price is not target or next_price(current, liquidity, %s, a_to_b, specified_input)" % ("apply_fee(remaining)" if si else "remaining"),
+                      loc=fn.loc(), detail="budget = %s" % ("apply_fee(remaining, rate)" if si else "remaining"))
+        else:
+            run.bad("R2", "amounts" + tagc, "SDK compute_swap_step does not return exactly one SwapStepQuote shape in this context (%d)" % len(q), loc=fn.loc())
+    # the guard choosing the target price
+    ok = False
+    for at in A.atoms(fn):
+        c = at.cond()
+        if c and c[0] in ("Le", "Ge"):
+            l, r = (c[1], c[2]) if c[0] == "Le" else (c[2], c[1])
+            if mentions(l, lambda s: s[0] == "call" and s[1].endswith("try_get_amount_fixed_delta")) and all(is_param(x, "amount_remaining") or mentions(x, lambda s: s[0] == "call" and s[1].endswith("try_apply_swap_fee")) for x in leaves(r)):
+                ok = True
+    run.check("R2", "reach-target-guard", ok, "SDK step no longer compares fixed_delta(current -> target) <= budget to decide whether the target is reached", loc=fn.loc(), detail="fixed_delta(target) <= budget => target")
+    # fee helpers
+    for name, want_flag, num_is_den in (("try_apply_swap_fee", False, False), ("try_reverse_apply_swap_fee", True, True)):
+        g = K.need_fn(TK + name)
+        run.touch(g)
+        cs = calls_to(g, ends("try_mul_div"))
+        ok = len(cs) == 1
+        if ok:
+            a = cs[0][2]
+
+            def is_den(t):
+                t = strip(t)
+                return t[0] == "const" and t[1] == 1000000
+
+            def is_den_minus_rate(t):
+                t = strip(t)
+                return t[0] == "bin" and t[1].startswith("Sub") and is_den(t[2]) and is_param(t[3], "fee_rate")
+            ok = is_param(a[0], "amount") and const_val(a[3]) == (1 if want_flag else 0)
+            ok = ok and ((is_den(a[1]) and is_den_minus_rate(a[2])) if num_is_den else (is_den_minus_rate(a[1]) and is_den(a[2])))
+        run.check("R2", name, ok, "SDK %s is not try_mul_div(amount, %s, round_up=%s)" % (name, "DEN, DEN - rate" if num_is_den else "DEN - rate, DEN", want_flag), loc=g.loc(),
+                  detail="amount * %s, round_up=%s" % ("DEN / (DEN - rate)" if num_is_den else "(DEN - rate) / DEN", want_flag))
+    for name, uses_a_when_eq, flag_negated in (("try_get_amount_fixed_delta", True, False), ("try_get_amount_unfixed_delta", False, True)):
+        g = K.need_fn(SW + name)
+        run.touch(g)
+        for ctx in preach.contexts(["specified_input", "a_to_b"]):
+            si, ab = ctx["specified_input"], ctx["a_to_b"]
+            ev = _events(K, g, ctx, ("try_get_amount_delta_a", "try_get_amount_delta_b"))
+            uses_a = (si == ab) == uses_a_when_eq
+            want = {("try_get_amount_delta_a" if uses_a else "try_get_amount_delta_b", (not si) if flag_negated else si)}
+            got = {(p, v[3]) for p, v in ev}
+            run.check("R2", "%s[exact_in=%d,a_to_b=%d]" % (name, si, ab), got == want, "SDK %s picks %s in context exact_in=%s a_to_b=%s, expected %s" % (name, sorted(got), si, ab, sorted(want)), loc=g.loc(),
+                      detail="%s(round_up=%s)" % list(want)[0])
+
+
+def _sdk_increment_blocks(fn):
+    """Blocks adding one: integer `x + 1`, or `<U256 as Add<_>>::add(x, 1)`."""
+    from analysis.ir import op_const
+    pv = prov_of(fn)
+    out = set()
+    for bi, bb in enumerate(fn.blocks):
+        if bb["c"]:
+            continue
+        for si, st in enumerate(bb["s"]):
+            if st["k"] == "=" and st["rv"].get("bin") in ("Add", "AddWithOverflow", "AddUnchecked"):
+                for side in ("a", "b"):
+                    k = op_const(st["rv"][side])
+                    if k is not None and k.get("v") == "1":
+                        out.add(bi)
+        t = bb["t"]
+        if t["k"] == "call" and (callee_path(t) or "").endswith("::add") and "ethnum" in (callee_path(t) or "") and len(t["a"]) == 2:
+            if const_val(pv.operand(t["a"][1], bi, len(bb["s"]))) == 1:
+                out.add(bi)
+    return out
+
+
+def R2b_rounding_primitives(run):
+    from rules.C02 import check_increment_idiom
+    run.title("R2b", "SDK rounding primitives add one only when asked to round up and only behind a remainder test: delta_a / delta_b / try_mul_div / token_a|b_from_liquidity (round_up), "
+                     "next_price_from_b (up iff !specified_input); next_price_from_a always rounds up behind its remainder test")
+    K = run.sdk
+    for path, param, up in ((TK + "try_get_amount_delta_a", "round_up", True), (TK + "try_get_amount_delta_b", "round_up", True), (TK + "try_mul_div", "round_up", True),
+                            (TK + "try_get_next_sqrt_price_from_b", "specified_input", False),
+                            ("quote::liquidity::try_get_token_a_from_liquidity", "round_up", True), ("quote::liquidity::try_get_token_b_from_liquidity", "round_up", True)):
+        fn = K.need_fn(path)
+        run.touch(fn)
+        check_increment_idiom(run, "R2b", fn, param=param, up=up, inc=_sdk_increment_blocks(fn), tag="sdk:")
+    fn = K.need_fn(TK + "try_get_next_sqrt_price_from_a")
+    run.touch(fn)
+    inc = _sdk_increment_blocks(fn)
+    rem = [at for at in A.atoms(fn) if at.cond() and at.cond()[0] in ("Ne", "Eq") and mentions(at.term, lambda s: s[0] == "call" and s[1].endswith("::rem"))]
+    ok = len(inc) == 1 and len(rem) == 1
+    if ok:
+        at = rem[0]
+        nz = at.true_targets if at.cond()[0] == "Ne" else at.false_targets
+        z = at.false_targets if at.cond()[0] == "Ne" else at.true_targets
+        b = list(inc)[0]
+        ok = b in cfg.reach(fn, nz[0], cut_blocks=[at.block]) and b not in cfg.reach(fn, z[0], cut_blocks=[at.block])
+        # unconditional in specified_input
+        ok = ok and b in preach.flow(fn, {"specified_input": True}).reachable() and b in preach.flow(fn, {"specified_input": False}).reachable()
+    run.check("R2b", "sdk:next_price_from_a-rounds-up", ok, "SDK try_get_next_sqrt_price_from_a does not add one exactly when the division leaves a remainder (in both modes)", loc=fn.loc(),
+              detail="remainder != 0 => quotient + 1, for exact-in and exact-out")
+    den = None
+    pv = prov_of(fn)
+    for ctxv, op in ((True, "add"), (False, "sub")):
+        pvc = prov_of(fn, {"specified_input": ctxv})
+        found = set()
+        for bi, t in fn.calls():
+            if pvc.flow.state_in[bi] is None:
+                continue
+            p = callee_path(t) or ""
+            if "ethnum" in p and p.rsplit("::", 1)[-1] in ("add", "sub") and const_val(pvc.operand(t["a"][1], bi, len(fn.blocks[bi]["s"]))) != 1:
+                found.add(p.rsplit("::", 1)[-1])
+        run.check("R2b", "sdk:next_price_from_a-denominator[exact_in=%d]" % ctxv, found == {op}, "SDK next_price_from_a builds its denominator with %s in mode exact_in=%s, expected liquidity<<64 %s amount*price" %
+                  (sorted(found), ctxv, "+" if ctxv else "-"), loc=fn.loc(), detail="L<<64 %s amount * price" % ("+" if ctxv else "-"))
+    g = K.need_fn(TK + "try_get_next_sqrt_price_from_b")
+    for ctxv, op in ((True, "add"), (False, "sub")):
+        pvc = prov_of(g, {"specified_input": ctxv})
+        found = set()
+        for bi, t in g.calls():
+            if pvc.flow.state_in[bi] is None:
+                continue
+            p = callee_path(t) or ""
+            if "ethnum" in p and p.rsplit("::", 1)[-1] in ("add", "sub") and const_val(pvc.operand(t["a"][1], bi, len(g.blocks[bi]["s"]))) != 1:
+                found.add(p.rsplit("::", 1)[-1])
+        run.check("R2b", "sdk:next_price_from_b-direction[exact_in=%d]" % ctxv, found == {op}, "SDK next_price_from_b moves the price with %s in mode exact_in=%s, expected price %s delta" % (sorted(found), ctxv, "+" if ctxv else "-"),
+                  loc=g.loc(), detail="price %s delta" % ("+" if ctxv else "-"))
+    for name in ("try_get_next_sqrt_price_from_a", "try_get_next_sqrt_price_from_b"):
+        g = K.need_fn(TK + name)
+        bounds = [at for at in A.atoms(g) if at.false_fail and "SQRT_PRICE_OUT_OF_BOUNDS" in at.false_codes and mentions(at.term, lambda s: s[0] == "call" and s[1].endswith("contains"))]
+        ok = len(bounds) == 1
+        if ok:
+            rng = [s for s in subterms(bounds[0].term) if s[0] == "call" and s[1].endswith("::new")]
+            ok = bool(rng) and [arg for arg in map(lambda x: (strip(x)[2] or "").rsplit("::", 1)[-1] if strip(x)[0] == "const" else None, rng[0][2])] == ["MIN_SQRT_PRICE", "MAX_SQRT_PRICE"]
+        run.check("R2b", "sdk:%s-bounds" % name, ok, "SDK %s does not reject results outside [MIN_SQRT_PRICE, MAX_SQRT_PRICE]" % name, loc=g.loc(), detail="result in [MIN, MAX] else SQRT_PRICE_OUT_OF_BOUNDS")
+
+
+
+PRE_SUBS_P = [(r"\bamount\b", "token_amount"), (r"MIN_SQRT_PRICE_X64", "MIN_SQRT_PRICE"), (r"MAX_SQRT_PRICE_X64", "MAX_SQRT_PRICE"), (r"NO_EXPLICIT_SQRT_PRICE_LIMIT", "0"),
+              (r"fail\(SqrtPriceOutOfBounds\)", "fail(SQRT_PRICE_LIMIT_OUT_OF_BOUNDS)"), (r"fail\((\w+)\)", lambda m: "fail(%s)" % (m.group(1) if m.group(1).isupper() or "_" in m.group(1) else _camel_to_snake(m)))]
+
+
+def _enum_arms(fn, facts, pred):
+    """(switch block, {variant name: target block}) of the `match` on a value satisfying pred."""
+    pv = prov_of(fn)
+    for bi, bb in enumerate(fn.blocks):
+        t = bb["t"]
+        if t["k"] != "switch":
+            continue
+        d = strip(pv.operand(t["d"], bi, len(bb["s"])))
+        if d[0] != "discr" or not pred(strip(d[1])):
+            continue
+        c = strip(d[1])
+        callee = facts.fn(c[1]) if c[0] == "call" else None
+        ty = (callee.sig["out"] if callee is not None else None)
+        adt = facts.adts.get(ty) if ty else None
+        if not adt:
+            return None
+        names = {str(v): n for n, v in adt.get("discrs", [])}
+        arms = {names.get(str(v), str(v)): b for v, b in t["ts"]}
+        rest = [n for n in names.values() if n not in arms]
+        if len(rest) == 1:
+            arms[rest[0]] = t["o"]
+        return bi, arms
+    return None
+
+
+def _arm_prov(fn, sw, target, ctx=None):
+    cut = {(sw, x) for x in fn.succ()[sw] if x != target}
+    return Prov(fn, preach.EdgeFlow(fn, cut, preach.flow(fn, ctx) if ctx else None))
+
+
+def R3_loop(run):
+    run.title("R3", "SDK compute_swap: the same limit defaulting / range / direction / zero-amount rejections as the program's swap(); per direction prev/next initialised tick and "
+                    "max/min target; cursor := next - 1 iff a_to_b on reaching the tick, else tick of the new price; liquidity_net applied with the program's sign table only when the tick "
+                    "is reached; remaining/calculated updated per mode; (token_a, token_b) = (swapped, calculated) iff a_to_b == specified_input")
+    P, K = run.facts, run.sdk
+    a = P.need_fn("manager::swap_manager::swap")
+    b = K.need_fn(SW + "compute_swap")
+    run.touch(a)
+    sa = _apply(S.summary(a, S.Norm(**NORM_P)), PRE_SUBS_P)
+    sb = S.summary(b, S.Norm(**NORM_S))
+    fa = {x for x in sa["atoms"] if "fail(" in x}
+    fb = {x for x in sb["atoms"] if "fail(" in x}
+    exempt_p = {"PARTIAL_FILL_ERROR": "exact-out partial fill without an explicit limit: the statement allows the SDK to answer",
+                "AMOUNT_REMAINING_OVERFLOW": "checked_sub failures (SDK: ARITHMETIC_OVERFLOW through ok_or, compared in the per-mode update rule)",
+                "AMOUNT_CALC_OVERFLOW": "same for checked_add"}
+    exempt_s = {"INVALID_ADAPTIVE_FEE_INFO": "SDK-only input validation: the program receives the oracle through account constraints (C19)"}
+    fa = {x for x in fa if not any(e in x for e in exempt_p)}
+    fb = {x for x in fb if not any(e in x for e in exempt_s)}
+    run.check("R3", "rejections", fa == fb and len(fa) >= 4, "swap() and the SDK's compute_swap reject different inputs:\n      program only: %s\n      SDK only: %s" %
+              ("; ".join(sorted(fa - fb))[:600], "; ".join(sorted(fb - fa))[:600]), loc="%s | %s" % (a.loc(), b.loc()), detail="%d failing guards equal after the name map" % len(fa))
+    # limit defaulting
+    for ab in (True, False):
+        pv = prov_of(b, {"a_to_b": ab}, cut=True)
+        lim = pv.var_by_name("sqrt_price_limit")
+        vals = set()
+        src = pv.var_defs(lim) if lim is not None else []
+        for _, _, t in src:
+            for x in leaves(t):
+                x = strip(x)
+                vals.add((x[2] or "").rsplit("::", 1)[-1] if x[0] == "const" else (x[1] if x[0] == "param" else sh(x, 30)))
+        want = {"MIN_SQRT_PRICE" if ab else "MAX_SQRT_PRICE", "sqrt_price_limit"}
+        run.check("R3", "limit-default[a_to_b=%d]" % ab, vals == want, "SDK default price limit for a_to_b=%s is %s, expected %s" % (ab, sorted(vals), sorted(want)), loc=b.loc(), detail="0 => %s" % sorted(want)[0])
+    for ab in (True, False):
+        ctx = {"a_to_b": ab}
+        pv = prov_of(b, ctx, cut=True)
+        fl = pv.flow
+        seq = {callee_path(t).rsplit("::", 1)[-1] for bi, t in b.calls() if fl.state_in[bi] is not None and (callee_path(t) or "").endswith("_initialized_tick")}
+        run.check("R3", "tick-search[a_to_b=%d]" % ab, seq == {"prev_initialized_tick" if ab else "next_initialized_tick"}, "SDK searches %s for a_to_b=%s" % (sorted(seq), ab), loc=b.loc(),
+                  detail="prev" if ab else "next")
+        tv = pv.var_by_name("target_sqrt_price")
+        ok = False
+        if tv is None:
+            # single assignment: read it at the step call
+            cs = calls_to(b, ends("get_bounded_sqrt_price_target"), ctx=ctx, cut=True)
+            tt = strip(cs[0][2][1]) if cs else ("x",)
+        else:
+            ds = pv.var_defs(tv)
+            tt = strip(ds[0][2]) if len(ds) == 1 else ("x",)
+        if tt[0] == "call" and tt[1].endswith("::max" if ab else "::min"):
+            ok = any(mentions(x, lambda s: s[0] == "call" and s[1].endswith("tick_index_to_sqrt_price")) for x in tt[2]) and any(strip(x)[0] == "var" and strip(x)[1] == "sqrt_price_limit" for x in tt[2])
+        run.check("R3", "target[a_to_b=%d]" % ab, ok, "SDK step target for a_to_b=%s is %s, expected %s(next tick price, limit)" % (ab, sh(tt, 80), "max" if ab else "min"), loc=b.loc(),
+                  detail="%s(price(next tick), limit)" % ("max" if ab else "min"))
+        cur = pv.var_by_name("current_tick_index")
+        ds = [strip(t) for blk, _, t in pv.var_defs(cur) if fl.state_in[blk] is not None] if cur is not None else []
+        kinds = set()
+        for t in ds:
+            for x in leaves(t):
+                x = strip(x)
+                if x[0] == "bin" and x[1].startswith("Sub") and const_val(x[3]) == 1 and mentions(x[2], lambda s: s[0] == "call" and s[1].endswith("_initialized_tick")):
+                    kinds.add("next-1")
+                elif x[0] == "field" and mentions(x, lambda s: s[0] == "call" and s[1].endswith("_initialized_tick")):
+                    kinds.add("next")
+                elif is_call(x, "sqrt_price_to_tick_index"):
+                    kinds.add("from-price")
+                elif x[0] == "field" and x[2] == "tick_current_index":
+                    kinds.add("init")
+                else:
+                    kinds.add("?" + sh(x, 40))
+        want = {"init", "from-price", "next-1" if ab else "next"}
+        run.check("R3", "cursor[a_to_b=%d]" % ab, kinds == want, "SDK tick cursor for a_to_b=%s takes %s, expected %s" % (ab, sorted(kinds), sorted(want)), loc=b.loc(),
+                  detail="reached tick => %s; otherwise tick of the new price" % ("next - 1" if ab else "next"))
+    # cursor / liquidity only when the step ended on the tick's price
+    pv = prov_of(b, None, cut=True) if False else Prov(b, cut=True)
+    reach_at = None
+    for at in A.atoms(b, cut=True):
+        c = at.cond()
+        if c and c[0] in ("Eq", "Ne") and mentions(c[1], lambda s: s[0] == "field" and s[2] == "next_sqrt_price") and \
+                ((strip(c[2])[0] == "var" and strip(c[2])[1] == "next_tick_sqrt_price") or
+                 (is_call(c[2], "tick_index_to_sqrt_price") and mentions(c[2], lambda s: s[0] == "call" and s[1].endswith("_initialized_tick")))):
+            reach_at = at
+    liq = pv.var_by_name("current_liquidity")
+    ok = reach_at is not None and liq is not None
+    if ok:
+        yes = reach_at.true_targets[0] if reach_at.cond()[0] == "Eq" else reach_at.false_targets[0]
+        no = reach_at.false_targets[0] if reach_at.cond()[0] == "Eq" else reach_at.true_targets[0]
+        ry = cfg.reach(b, yes, cut_blocks=[reach_at.block])
+        rn = cfg.reach(b, no, cut_blocks=[reach_at.block])
+        upd = [(blk, strip(t)) for blk, _, t in pv.var_defs(liq) if is_call(t, "get_next_liquidity")]
+        ok = len(upd) == 1 and upd[0][0] in ry - rn
+        if ok:
+            c = upd[0][1]
+            ok = strip(c[2][0]) == ("var", "current_liquidity", liq) and is_param(c[2][2], "a_to_b") and mentions(c[2][1], lambda s: s[0] == "call" and s[1].endswith("_initialized_tick"))
+    run.check("R3", "crossing-only-at-tick", ok, "SDK applies get_next_liquidity(current, next tick, a_to_b) elsewhere than on `step.next_sqrt_price == next_tick_sqrt_price`", loc=b.loc(),
+              detail="next price == tick price => liquidity := get_next_liquidity(liquidity, tick, a_to_b)")
+    g = K.need_fn(SW + "get_next_liquidity")
+    run.touch(g)
+    neg = [at for at in A.atoms(g) if at.cond() and at.cond()[0] in ("Lt", "Ge") and const_val(at.cond()[2]) == 0]
+    table = {}
+    for ab in (True, False):
+        for isneg in (True, False):
+            pva = prov_assuming(g, [(at, (at.cond()[0] == "Lt") == isneg) for at in neg], {"a_to_b": ab})
+            ops = set()
+            for r in _rets(g, pva, ok_only=False):
+                if r[0] == "bin" and strip(r[2]) == ("param", "current_liquidity") and is_call(r[3], "unsigned_abs"):
+                    ops.add(r[1].replace("WithOverflow", ""))
+                else:
+                    ops.add("?" + sh(r, 40))
+            table[(ab, isneg)] = ops
+    want = {(True, True): {"Add"}, (True, False): {"Sub"}, (False, True): {"Sub"}, (False, False): {"Add"}}
+    run.check("R3", "crossing-sign-table", bool(neg) and table == want, "SDK get_next_liquidity sign table is %s, expected a_to_b: net<0 => +|net| else -|net|; b_to_a: the reverse" %
+              {k: sorted(v) for k, v in table.items()}, loc=g.loc(), detail="a_to_b subtracts liquidity_net, b_to_a adds it")
+    lq = [strip(pv_) for pv_ in []]
+    # liquidity_net of an absent (uninitialised / out of sequence) tick is zero
+    pvg = prov_of(g)
+    netdef = [s for r in _rets(g, pvg, ok_only=False) for s in subterms(r) if s[0] == "call" and s[1].endswith("unwrap_or")]
+    ok = bool(netdef) and all(const_val(s[2][1]) == 0 for s in netdef)
+    run.check("R3", "absent-tick-zero", ok, "SDK get_next_liquidity does not treat a missing tick as liquidity_net = 0", loc=g.loc(), detail="next_tick.map(net).unwrap_or(0)")
+    # per-mode amount updates
+    for si in (True, False):
+        ctx = {"specified_input": si}
+        pvc = prov_of(b, ctx, cut=True)
+        rem, cal = pvc.var_by_name("amount_remaining"), pvc.var_by_name("amount_calculated")
+
+        def upd(local, opname):
+            out = []
+            for blk, _, t in pvc.var_defs(local):
+                if pvc.flow.state_in[blk] is None:
+                    continue
+                fs = sorted(s[2] for s in subterms(t) if s[0] == "field" and s[2] in ("amount_in", "amount_out", "fee_amount"))
+                ops = sorted({s[1].rsplit("::", 1)[-1] for s in subterms(t) if s[0] == "call" and s[1].rsplit("::", 1)[-1] in ("checked_sub", "checked_add")})
+                if fs:
+                    out.append((tuple(fs), tuple(ops)))
+            return out
+        r_, c_ = upd(rem, "checked_sub"), upd(cal, "checked_add")
+        want_r = [(("amount_in", "fee_amount"), ("checked_sub",))] if si else [(("amount_out",), ("checked_sub",))]
+        want_c = [(("amount_out",), ("checked_add",))] if si else [(("amount_in", "fee_amount"), ("checked_add",))]
+        run.check("R3", "amount-updates[exact_in=%d]" % si, r_ == want_r and c_ == want_c, "SDK per-step bookkeeping in mode exact_in=%s: remaining %s, calculated %s; expected remaining -= %s, calculated += %s" %
+                  (si, r_, c_, "in + fee" if si else "out", "out" if si else "in + fee"), loc=b.loc(), detail="remaining -= %s; calculated += %s" % ("in + fee" if si else "out", "out" if si else "in + fee"))
+    pvx = Prov(b, cut=True)
+    tf = pvx.var_by_name("trade_fee")
+    ds = [strip(t) for _, _, t in pvx.var_defs(tf)] if tf is not None else []
+    ok = len(ds) == 2 and any(const_val(d) == 0 for d in ds) and any(d[0] == "bin" and d[1].startswith("Add") and strip(d[2]) == ("var", "trade_fee", tf) and strip(d[3])[0] == "field" and strip(d[3])[2] == "fee_amount" for d in ds)
+    run.check("R3", "trade-fee-sum", ok, "SDK trade_fee is not the running sum of the steps' fee_amount", loc=b.loc(), detail="trade_fee += step.fee_amount")
+    cp = pvx.var_by_name("current_sqrt_price")
+    ds = [strip(t) for _, _, t in pvx.var_defs(cp)] if cp is not None else []
+    ok = len(ds) == 2 and any(d[0] == "field" and d[2] == "sqrt_price" for d in ds) and any(d[0] == "field" and d[2] == "next_sqrt_price" and mentions(d, lambda s: s[0] == "call" and s[1].endswith("compute_swap_step")) for d in ds)
+    run.check("R3", "price-update", ok, "SDK current_sqrt_price is not whirlpool.sqrt_price then each step's next_sqrt_price", loc=b.loc(), detail="price := step.next_sqrt_price")
+    cs = calls_to(b, ends("compute_swap_step"), ctx={}, cut=True)
+    ok = len(cs) == 1
+    if ok:
+        aa = cs[0][2]
+        isv = lambda t, n: strip(t)[0] == "var" and strip(t)[1] == n
+        ok = isv(aa[0], "amount_remaining") and is_call(aa[1], "get_total_fee_rate") and isv(aa[2], "current_liquidity") and isv(aa[3], "current_sqrt_price") and \
+            mentions(aa[4], lambda s: s[0] == "call" and s[1].endswith("get_bounded_sqrt_price_target")) and is_param(aa[5], "a_to_b") and is_param(aa[6], "specified_input")
+    run.check("R3", "step-inputs", ok, "SDK does not call compute_swap_step(remaining, total fee rate, liquidity, price, bounded target, a_to_b, specified_input)", loc=b.loc(),
+              detail="(remaining, get_total_fee_rate(), liquidity, price, bounded target.0, a_to_b, specified_input)")
+    nw = calls_to(b, ends("FeeRateManager::new"), ctx={}, cut=True)
+    ok = len(nw) == 1 and is_param(nw[0][2][0], "a_to_b") and arg_name(nw[0][2][1]) == "tick_current_index" and is_param(nw[0][2][2], "timestamp") and arg_name(nw[0][2][3]) == "fee_rate" and \
+        is_param(strip(nw[0][2][4])[1] if strip(nw[0][2][4])[0] == "ref" else nw[0][2][4], "adaptive_fee_info")
+    run.check("R3", "manager-inputs", ok, "SDK FeeRateManager::new is not given (a_to_b, pool tick, timestamp, pool fee_rate, adaptive_fee_info)", loc=b.loc(), detail="new(a_to_b, tick, now, fee_rate, info)")
+    for ctx in preach.contexts(["specified_input", "a_to_b"]):
+        si, ab = ctx["specified_input"], ctx["a_to_b"]
+        pvc = prov_of(b, ctx, cut=True)
+        q = [_ok_payload(r) for r in _rets(b, pvc)]
+        q = [x for x in q if x is not None and x[0] == "agg"]
+        ok = len(q) == 1
+        if ok:
+            f = dict(q[0][3])
+
+            def kind(t):
+                t = strip(t)
+                if t[0] == "var" and t[1] == "amount_calculated":
+                    return "calculated"
+                if t[0] == "bin" and t[1].startswith("Sub") and is_param(t[2], "token_amount") and strip(t[3])[0] == "var" and strip(t[3])[1] == "amount_remaining":
+                    return "swapped"
+                if t[0] == "var":
+                    ds = pvc.var_defs(t[2])
+                    ks = {kind(d[2]) for d in ds if pvc.flow.state_in[d[0]] is not None}
+                    return ks.pop() if len(ks) == 1 else "?"
+                return "?" + sh(t, 30)
+            got = (kind(f["token_a"]), kind(f["token_b"]))
+            want = ("swapped", "calculated") if ab == si else ("calculated", "swapped")
+            ok = got == want
+        run.check("R3", "result-sides[exact_in=%d,a_to_b=%d]" % (si, ab), ok, "SDK (token_a, token_b) in context exact_in=%s a_to_b=%s is %s" % (si, ab, got if q else None), loc=b.loc(),
+                  detail="(token_a, token_b) = %s" % str(("swapped", "calculated") if ab == si else ("calculated", "swapped")))
+
+
+def R5_quotes(run):
+    run.title("R5", "SDK quotes: exact-in quote runs compute_swap(a_to_b = specified_token_a, exact-in) and puts min-slippage on the output; exact-out runs (a_to_b = !specified_token_a, "
+                    "exact-out) and puts max-slippage on the input; min = floor(x * (D - s) / D), max = ceil(x * (D + s) / D); liquidity estimates use the three-case table (below: A over "
+                    "[lower, upper]; inside: A over [current, upper] and B over [lower, current]; above: B over [lower, upper]); increases round up and take the max, decreases round down "
+                    "and take the min")
+    K = run.sdk
+    for name, flag, sign in (("try_get_min_amount_with_slippage_tolerance", 0, "Sub"), ("try_get_max_amount_with_slippage_tolerance", 1, "Add")):
+        g = K.need_fn(TK + name)
+        run.touch(g)
+        cs = calls_to(g, ends("try_mul_div"))
+        ok = len(cs) == 1
+        if ok:
+            a = cs[0][2]
+            pr = strip(a[1])
+            ok = is_param(a[0], "amount") and const_val(a[3]) == flag and const_val(a[2]) == 10000 and pr[0] == "bin" and pr[1].startswith(sign) and const_val(pr[2]) == 10000 and is_param(pr[3], "slippage_tolerance_bps")
+        run.check("R5", name, ok, "SDK %s is not try_mul_div(amount, BPS %s slippage, BPS, round_up=%s)" % (name, "-" if sign == "Sub" else "+", bool(flag)), loc=g.loc(),
+                  detail="%s(amount * (10000 %s s) / 10000)" % ("ceil" if flag else "floor", "-" if sign == "Sub" else "+"))
+        fails = [at for at in A.atoms(g) if at.true_fail and "INVALID_SLIPPAGE_TOLERANCE" in at.true_codes]
+        ok = len(fails) == 1 and fails[0].cond()[0] == "Gt" and const_val(fails[0].cond()[2]) == 10000
+        run.check("R5", name + "-range", ok, "SDK %s does not reject slippage above 100%%" % name, loc=g.loc(), detail="s > 10000 => error")
+    for name, exact_in in (("swap_quote_by_input_token", True), ("swap_quote_by_output_token", False)):
+        g = K.need_fn(SW + name)
+        run.touch(g)
+        cs = calls_to(g, ends("compute_swap"))
+        ok = len(cs) == 1
+        if ok:
+            a = cs[0][2]
+            dirn = strip(a[4])
+            dir_ok = is_param(dirn, "specified_token_a") if exact_in else (dirn[0] == "un" and dirn[1] == "Not" and is_param(dirn[2], "specified_token_a"))
+            ok = dir_ok and const_val(a[5]) == (1 if exact_in else 0) and const_val(a[1]) == 0 and is_param(a[2], "whirlpool") and is_param(a[6], "timestamp")
+        run.check("R5", name + "-engine", ok, "SDK %s does not run compute_swap(amount, no limit, pool, ticks, a_to_b = %sspecified_token_a, specified_input = %s, timestamp, oracle)" %
+                  (name, "" if exact_in else "!", exact_in), loc=g.loc(), detail="a_to_b = %sspecified_token_a, exact_%s" % ("" if exact_in else "!", "in" if exact_in else "out"))
+        pv = prov_of(g)
+        q = [_ok_payload(r) for r in _rets(g, pv)]
+        q = [x for x in q if x is not None and x[0] == "agg"]
+        ok = len(q) == 1
+        if ok:
+            f = dict(q[0][3])
+            if exact_in:
+                m = strip(f["token_min_out"])
+                m = m[1] if m[0] == "q" else m
+                ok = is_call(m, "try_get_min_amount_with_slippage_tolerance") and strip(m[2][0]) == strip(f["token_est_out"]) and is_param(m[2][1], "slippage_tolerance_bps")
+            else:
+                m = strip(f["token_max_in"])
+                m = m[1] if m[0] == "q" else m
+                ok = is_call(m, "try_get_max_amount_with_slippage_tolerance") and strip(m[2][0]) == strip(f["token_est_in"]) and is_param(m[2][1], "slippage_tolerance_bps")
+        run.check("R5", name + "-slippage", ok, "SDK %s does not put the slippage on the safe side (%s)" % (name, "token_min_out = min(token_est_out)" if exact_in else "token_max_in = max(token_est_in)"),
+                  loc=g.loc(), detail="min on the estimated output" if exact_in else "max on the estimated input")
+        # which token is the estimated side
+        for sa in (True, False):
+            pvc = prov_of(g, {"specified_token_a": sa})
+            q = [_ok_payload(r) for r in _rets(g, pvc)]
+            q = [x for x in q if x is not None and x[0] == "agg"]
+            ok = len(q) == 1
+            if ok:
+                f = dict(q[0][3])
+                est = f["token_est_out"] if exact_in else f["token_est_in"]
+                flds = {s[2] for s in subterms(est) if s[0] == "field" and s[2] in ("token_a", "token_b")}
+                # exact-in on A: output is B; exact-out of A: input is B
+                ok = flds == {"token_b" if sa else "token_a"}
+            run.check("R5", "%s-side[specified_a=%d]" % (name, sa), ok, "SDK %s estimates the wrong token for specified_token_a=%s" % (name, sa), loc=g.loc(), detail="other side = token_%s" % ("b" if sa else "a"))
+    g = K.need_fn("quote::liquidity::try_get_token_estimates_from_liquidity")
+    run.touch(g)
+    arms = _enum_arms(g, K, lambda t: is_call(t, "position_status"))
+    ok = arms is not None
+    if ok:
+        sw, amap = arms
+        want = {"PriceBelowRange": ("A:lower,upper", "0"), "PriceInRange": ("A:current,upper", "B:lower,current"), "PriceAboveRange": ("0", "B:lower,upper"), "Invalid": ("0", "0")}
+        got = {}
+
+        def price(t):
+            t = strip(t)
+            if is_param(t, "current_sqrt_price"):
+                return "current"
+            if mentions(t, lambda s: s[0] == "param" and s[1] == "tick_lower_index") and mentions(t, lambda s: s[0] == "call" and s[1].endswith("tick_index_to_sqrt_price")):
+                return "lower"
+            if mentions(t, lambda s: s[0] == "param" and s[1] == "tick_upper_index") and mentions(t, lambda s: s[0] == "call" and s[1].endswith("tick_index_to_sqrt_price")):
+                return "upper"
+            return "?"
+
+        def side(t):
+            t = strip(t)
+            if const_val(t) == 0:
+                return "0"
+            t = t[1] if t[0] == "q" else t
+            for nm, tag in (("try_get_token_a_from_liquidity", "A"), ("try_get_token_b_from_liquidity", "B")):
+                if is_call(t, nm):
+                    if not (is_param(t[2][0], "liquidity_delta") and is_param(t[2][3], "round_up")):
+                        return "?args"
+                    return "%s:%s,%s" % (tag, price(t[2][1]), price(t[2][2]))
+            return "?" + sh(t, 30)
+        for v, tgt in amap.items():
+            pva = _arm_prov(g, sw, tgt)
+            rs = [_ok_payload(r) for r in _rets(g, pva)]
+            rs = [r for r in rs if r is not None and r[0] == "tuple"]
+            tuples = {(side(r[1][0]), side(r[1][1])) for r in rs} - {("0", "0")} if v != "Invalid" else {(side(r[1][0]), side(r[1][1])) for r in rs}
+            got[v] = tuples
+        ok = all(got.get(v) == {w} for v, w in want.items())
+        run.check("R5", "liquidity-case-table", ok, "SDK token estimates per position status are %s, expected %s" % ({k: sorted(v) for k, v in got.items()}, want), loc=g.loc(),
+                  detail="below: A[lower,upper]; inside: A[current,upper] + B[lower,current]; above: B[lower,upper]")
+    else:
+        run.missing("R5", "liquidity-case-table", "no match on position_status(..) in try_get_token_estimates_from_liquidity", loc=g.loc())
+    ps = K.need_fn("math::position::position_status")
+    run.touch(ps)
+    pv = prov_of(ps)
+    table = {}
+    for at in A.atoms(ps):
+        c = at.cond()
+        if not c or c[0] not in ("Le", "Ge", "Lt", "Gt"):
+            continue
+        which = "lower" if mentions(c[2], lambda s: s[0] == "field" and s[2] == "tick_lower_index") else ("upper" if mentions(c[2], lambda s: s[0] == "field" and s[2] == "tick_upper_index") else None)
+        if which and is_param(c[1], "current_sqrt_price"):
+            table[which] = c[0]
+    # strictness at the bounds is immaterial for amounts: at price == bound the in-range formulas give the one-sided amounts
+    run.check("R5", "position-status", table.get("lower") in ("Le", "Lt") and table.get("upper") in ("Ge", "Gt") and len(table) == 2, "SDK position_status compares the price with the bounds as %s, expected price <= lower => below, price >= upper => above" % table,
+              loc=ps.loc(), detail="price <= price(lower) => below; price >= price(upper) => above")
+    for name, ru, slip, fee in (("increase_liquidity_quote", 1, "try_get_max_amount_with_slippage_tolerance", "try_reverse_apply_transfer_fee"),
+                                ("decrease_liquidity_quote", 0, "try_get_min_amount_with_slippage_tolerance", "try_apply_transfer_fee")):
+        g = K.need_fn("quote::liquidity::" + name)
+        run.touch(g)
+        cs = calls_to(g, ends("try_get_token_estimates_from_liquidity"))
+        ok = len(cs) == 1 and const_val(cs[0][2][4]) == ru
+        run.check("R5", name + "-rounding", ok, "SDK %s estimates with round_up = %s" % (name, [const_val(c[2][4]) for c in cs]), loc=g.loc(), detail="round_up = %s" % bool(ru))
+        slips = {callee_path(t).rsplit("::", 1)[-1] for _, t in g.calls() if "slippage" in (callee_path(t) or "")}
+        fees = {callee_path(t).rsplit("::", 1)[-1] for _, t in g.calls() if "transfer_fee" in (callee_path(t) or "") and "unwrap" not in (callee_path(t) or "")}
+        run.check("R5", name + "-safe-side", slips == {slip} and fees == {fee}, "SDK %s uses %s / %s, expected %s / %s" % (name, sorted(slips), sorted(fees), slip, fee), loc=g.loc(),
+                  detail="%s, %s" % (slip.replace("try_get_", "").replace("_amount_with_slippage_tolerance", ""), fee.replace("try_", "")))
+
+
+RULES = [R1_constants, R2_step, R2b_rounding_primitives, R3_loop, R4_fee_manager_ports, R5_quotes]
